@@ -12,12 +12,12 @@ search for an input on which the real code violates the property.
 
 Tolerances (documented, `compare: "tol"`):
 * real vs model: |ΔQ| <= 1e-8, |ΔH| <= 1e-8·max(1,‖A‖) on every column computed before the first
-  *noise breakdown* of that start vector (a step whose norm is <= NOISE = 1e4·eps·max(1,‖A‖)): after
+  *noise breakdown* of that start vector (a step whose norm is <= NOISE = 1e-10·‖A‖): after
   such a step the code divides rounding noise by tol/2, the result is not determined by the exact
   model (nor by the real code up to rounding), so it is never compared;
 * matrices are chosen with well-conditioned eigenbases (cond(X) <= ~10) and separated spectra so
   that modified Gram–Schmidt is well conditioned at n <= 12 (quick) / 40 (thorough); tolerances
-  tol are >= 1e-10 (the code cannot detect a breakdown below rounding noise).
+  tol are >= 1e-8 (the code cannot detect a breakdown below rounding noise).
 """
 import json
 import math
@@ -37,6 +37,7 @@ warnings.simplefilter("ignore")
 
 MODULE = "ColaVerif.Properties.C15"
 EPS = 2.220446049250313e-16
+NOISE_REL = 1e-10     # a step norm <= NOISE_REL * |A| is rounding noise (a breakdown in exact arithmetic)
 
 # --------------------------------------------------------------------------------------------
 # PROVISIONAL: clauses treated as known findings until the maintainer decides whether the
@@ -46,7 +47,12 @@ EPS = 2.220446049250313e-16
 #                   in (0, tol/2) is divided by tol/2 (non-unit column, Arnoldi relation broken)
 #   stopExact     : after an early stop by the tolerance test with a non-zero norm the returned
 #                   full-size buffers do not satisfy A Q[:, :m] = Q H (unit column, zero H column)
-PROVISIONAL_KNOWN = {"noPaddingEigs", "noClip", "stopExact"}
+#   breakdownNotMasked : FLOATING-POINT ONLY (exact arithmetic: zeros, `Arnoldi.Inv.zero_after_breakdown`): a start vector
+#                   whose norm dropped to rounding noise keeps being stepped whenever the loop continues — in a batch
+#                   (another vector is still large), and for a single vector when the breakdown happens in the very
+#                   first step (the test `norm > tol*H[1,0]` is then relative to the noise itself and never fails);
+#                   each further step multiplies the noise by up to 2/tol: O(1) garbage columns in Q and H
+PROVISIONAL_KNOWN = {"noPaddingEigs", "noClip", "stopExact", "breakdownNotMasked"}
 # --------------------------------------------------------------------------------------------
 
 WHAT = {
@@ -54,6 +60,9 @@ WHAT = {
                      "max_iters - steps spurious zero eigenvalues whenever fewer than max_iters steps ran (max_iters > n, or breakdown)",
     "noClip": "new_vec /= clip(norm, tol/2) is an absolute floor while the stopping test is relative (norm > tol*H[1,0]): a step "
               "norm in (0, tol/2) (operator of small norm) yields a non-unit column and breaks A q_i = sum H[l,i] q_l",
+    "breakdownNotMasked": "floating point only: after the norm of a start vector dropped to rounding noise (breakdown) the vector "
+                          "keeps being stepped when the loop continues (batch; or breakdown in the very first step, which the test "
+                          "norm > tol*H[1,0] cannot detect) and rounding noise is amplified by 2/tol per step into O(1) garbage columns of Q and H",
     "stopExact": "early stop by the tolerance test with a non-zero norm: Q[:, steps] is a unit vector but H[:, steps] = 0, so "
                  "A Q[:, :max_iters] = Q H fails in that column (only the leading `steps` columns are a factorisation)",
 }
@@ -134,6 +143,10 @@ def driver_case(case, cid):
     A = fromjson(case["A"], cplx)
     d = {"id": cid, "kind": "arnoldi", "complex": cplx, "n": case["n"], "M": case["M"], "tol": bits(case["tol"]),
          "A": enc(A, cplx), "V": enc(fromjson(case["V"], cplx), cplx)}
+    # test hook (used only to rehearse the repaired world before the constant `trimPaddingInEigs` in
+    # lean/ColaVerif/Model/Arnoldi.lean is flipped): VERIF_ARNOLDI_TRIM=1 overrides the model switch
+    if os.environ.get("VERIF_ARNOLDI_TRIM"):
+        d["trim"] = os.environ["VERIF_ARNOLDI_TRIM"] == "1"
     return d
 
 
@@ -161,59 +174,89 @@ def rand_unitary(g, n, cplx):
 
 
 def gen_matrix(g, n, cls, cplx, scale=1.0):
-    """returns (A, X, lam) with A = X diag(lam) X^{-1}; X well conditioned; spectrum separated and away from 0"""
-    mags = 1.0 + np.arange(n) * (2.0 / max(n - 1, 1)) + 0.15 * g.uniform(-1, 1, n) / max(n, 1)
+    """A = X D X^{-1}: X well conditioned, spectrum on an annulus 1 <= |lam| <= 3 with spread arguments (so that Krylov bases —
+    hence Gram–Schmidt — are well conditioned), away from 0.  Complex: D diagonal.  Real: D block diagonal with 2x2 rotation-scaling
+    blocks (conjugate pairs) and 1–3 real eigenvalues.  Returns (A, X, blocks): blocks = list of column-index lists spanning
+    the minimal invariant subspaces (over the field of the matrix)."""
+    def noise(m):
+        return g.standard_normal((m, m)) + (1j * g.standard_normal((m, m)) if cplx else 0)
     if cplx:
-        lam = mags * np.exp(1j * g.uniform(-math.pi, math.pi, n))
+        mags = 1.0 + 2.0 * g.uniform(size=n)
+        args = (np.arange(n) + 0.3 * g.uniform(-1, 1, n)) * (2 * math.pi / n) + g.uniform(0, 2 * math.pi)
+        lam = mags * np.exp(1j * args)
+        g.shuffle(lam)
+        D = np.diag(lam)
+        blocks = [[i] for i in range(n)]
     else:
-        lam = mags * g.choice([-1.0, 1.0], n)
-    g.shuffle(lam)
+        nreal = (n % 2) + (2 if (n >= 4 and g.integers(2)) else 0)
+        nreal = min(nreal, n)
+        npair = (n - nreal) // 2
+        D = np.zeros((n, n))
+        blocks = []
+        realvals = [(1.0 + 2.0 * g.uniform()) * s for s in ([1.0, -1.0, 1.0][:nreal])]
+        for i, x in enumerate(realvals):
+            D[i, i] = x
+            blocks.append([i])
+        for p in range(npair):
+            th = (p + 0.5 + 0.3 * g.uniform(-1, 1)) * math.pi / max(npair, 1)
+            r = 1.0 + 2.0 * g.uniform()
+            a, b = r * math.cos(th), r * math.sin(th)
+            i = nreal + 2 * p
+            D[i:i + 2, i:i + 2] = [[a, -b], [b, a]]
+            blocks.append([i, i + 1])
     U = rand_unitary(g, n, cplx)
     if cls == "normal":
         X = U
     elif cls == "nonsym":
-        X = U @ (np.eye(n) + 0.25 * (g.standard_normal((n, n)) + (1j * g.standard_normal((n, n)) if cplx else 0)) / math.sqrt(n))
+        X = U @ (np.eye(n) + 0.25 * noise(n) / math.sqrt(n))
     elif cls == "nonnormal":
-        T = np.triu(g.standard_normal((n, n)) + (1j * g.standard_normal((n, n)) if cplx else 0), 1) * (0.6 / math.sqrt(n))
-        X = U @ (np.eye(n) + T)
-    else:  # jordanish: strongly non-normal, two nearly parallel eigenvectors
-        X = U @ (np.eye(n) + 0.25 * (g.standard_normal((n, n)) + (1j * g.standard_normal((n, n)) if cplx else 0)) / math.sqrt(n))
+        X = U @ (np.eye(n) + np.triu(noise(n), 1) * (0.6 / math.sqrt(n)))
+    else:  # jordanish: strongly non-normal, two nearly parallel basis vectors
+        X = U @ (np.eye(n) + 0.25 * noise(n) / math.sqrt(n))
         if n >= 2:
             X[:, 1] = X[:, 0] + 0.2 * X[:, 1]
-    A = (X * lam) @ np.linalg.inv(X)
+    A = X @ D @ np.linalg.inv(X)
     if not cplx:
         A = A.real
-    return scale * A, X, scale * lam
+    return scale * A, X, blocks
 
 
-def gen_start(g, n, X, cplx, kind):
+def gen_start(g, n, X, blocks, cplx, kind):
+    """-> (v, grade): grade = dimension of the Krylov space of v"""
+    def coef(m):
+        return (1.0 + g.uniform(size=m)) * (np.exp(1j * g.uniform(0, 2 * math.pi, m)) if cplx else g.choice([-1.0, 1.0], m))
     if kind == "generic":
         v = g.standard_normal(n) + (1j * g.standard_normal(n) if cplx else 0)
-    elif kind == "eigvec":
-        v = X[:, int(g.integers(n))] * (1.0 + g.uniform())
-    else:  # "eig2", "eig3": sum of 2–3 eigenvectors: Krylov space of dimension 2–3
-        k = min(n, 2 if kind == "eig2" else 3)
-        idx = g.choice(n, size=k, replace=False)
-        v = X[:, idx] @ (1.0 + g.uniform(size=k))
-    if not cplx:
-        v = np.real(v)
-    return v
+        return v, n
+    want = {"eigvec": 1, "eig2": 2, "eig3": 3}[kind]
+    order = list(g.permutation(len(blocks)))
+    if want == 1:
+        order.sort(key=lambda b: len(blocks[b]))          # a 1-dimensional invariant subspace if there is one
+    cols = []
+    for b in order:
+        if len(cols) + len(blocks[b]) <= max(want, len(blocks[order[0]])):
+            cols += blocks[b]
+        if len(cols) >= want:
+            break
+    v = X[:, cols] @ coef(len(cols))
+    return (v if cplx else np.real(v)), len(cols)
 
 
-def make_case(g, n, cls, cplx, M, tol, starts, eigs=False, scale=1.0):
-    A, X, lam = gen_matrix(g, n, cls, cplx, scale)
-    V = np.stack([gen_start(g, n, X, cplx, s) for s in starts])      # (k, n)
-    grades = [n if s == "generic" else 1 if s == "eigvec" else min(n, 2 if s == "eig2" else 3) for s in starts]
+def make_case(g, n, cls, cplx, M, tol, starts, eigs=False, scale=1.0, stream="A"):
+    A, X, blocks = gen_matrix(g, n, cls, cplx, scale)
+    sv = [gen_start(g, n, X, blocks, cplx, s) for s in starts]
+    V = np.stack([x[0] for x in sv])      # (k, n)
+    grades = [x[1] for x in sv]
     return {"kind": "arnoldi", "complex": bool(cplx), "n": n, "M": M, "tol": tol, "cls": cls, "starts": list(starts),
-            "grades": grades, "batched": len(starts) > 1, "eigs": bool(eigs and len(starts) == 1),
+            "grades": grades, "stream": stream, "batched": len(starts) > 1, "eigs": bool(eigs and len(starts) == 1),
             "A": tojson(A), "V": tojson(V)}
 
 
 def stream(ctx, g):
     out = []
     nmax = 12 if not ctx.thorough else 40
-    reps = 1 if not ctx.thorough else 4
-    tols = [1e-7, 1e-3, 1e-10, 1e-5]
+    reps = 4 if not ctx.thorough else 12
+    tols = [1e-7, 1e-3, 1e-8, 1e-5]
     for rep in range(reps):
         # A. every n, every class, every max_iters = 1..n+3, single start vectors (with arnoldi_eigs)
         ns = list(range(1, nmax + 1)) if not ctx.thorough else [1, 2, 3, 4, 5, 6, 8, 10, 12, 16, 20, 25, 32, 40]
@@ -231,12 +274,12 @@ def stream(ctx, g):
                 pool = [["generic"] * k, ["generic", "eigvec", "eig2", "generic"][:k], ["eig2", "generic", "eig3", "eigvec"][:k]]
                 st = pool[int(g.integers(len(pool)))]
                 out.append(make_case(g, n, CLASSES[int(g.integers(len(CLASSES)))], bool(g.integers(2)), M,
-                                     tols[int(g.integers(2))], st))
+                                     tols[int(g.integers(2))], st, stream="B"))
         # C. edge stream: the named clauses (small-norm operators -> clip; large tol -> early stop)
         for n in [2, 3, 5, 8]:
-            out.append(make_case(g, n, "nonsym", bool(g.integers(2)), n, 1e-7, ["generic"], eigs=False, scale=1e-9))
-            out.append(make_case(g, n, "normal", bool(g.integers(2)), n + 1, 0.5, ["generic"], eigs=False))
-            out.append(make_case(g, n, "nonnormal", False, n, 0.9, ["generic", "generic"]))
+            out.append(make_case(g, n, "nonsym", bool(g.integers(2)), n, 1e-7, ["generic"], eigs=False, scale=1e-9, stream="C"))
+            out.append(make_case(g, n, "normal", bool(g.integers(2)), n + 1, 0.5, ["generic"], eigs=False, stream="C"))
+            out.append(make_case(g, n, "nonnormal", False, n, 0.9, ["generic", "generic"], stream="C"))
     return out
 
 
@@ -288,7 +331,7 @@ def compare_real_model(case, real, model):
         return [f"real={real.get('exception')} model={model.get('error')}"]
     A, an = norms(case)
     sc = max(1.0, an)
-    noise = 1e4 * EPS * sc
+    noise = NOISE_REL * an
     mism = []
     if real["Q"].shape != model["Q"].shape or real["H"].shape != model["H"].shape:
         return [f"shapes real Q{real['Q'].shape} H{real['H'].shape} model Q{model['Q'].shape} H{model['H'].shape}"]
@@ -310,13 +353,20 @@ def compare_real_model(case, real, model):
             mism.append(f"col {c}: |Q_real-Q_model|={dq:.3e} on columns 0..{j}")
         if not (dh <= 1e-8 * sc):
             mism.append(f"col {c}: |H_real-H_model|={dh:.3e} on columns 0..{ncol - 1}")
-        # exact-zero structure must agree everywhere
-        if ((Hr == 0) != (Hm == 0)).any() and j == steps:
-            mism.append(f"col {c}: zero pattern of H differs")
+        # structural zeros (below the sub-diagonal, unexecuted columns) must agree exactly
+        Mm = Hr.shape[1]
+        struct_mask = np.tril(np.ones_like(Hr, dtype=bool), -2)
+        struct_mask[:, steps:] = True
+        if ((Hr != 0) & struct_mask).any() != ((Hm != 0) & struct_mask).any() or (np.abs(Qr[:, steps + 1:]).max(initial=0) != 0) != (np.abs(Qm[:, steps + 1:]).max(initial=0) != 0):
+            mism.append(f"col {c}: structural zeros differ")
     if len(real["errors"]) != len(model["errors"]):
         mism.append(f"len(errors) real={len(real['errors'])} model={len(model['errors'])}")
-    elif len(real["errors"]) and not np.allclose(real["errors"], model["errors"], rtol=1e-6, atol=max(noise, 1e-8 * sc)):
-        mism.append("info['errors'] differ")
+    elif len(real["errors"]):
+        # errors[i] = norm of start vector 0 after step i+2 (the last one repeated): compare up to the first noise breakdown
+        j0 = first_small(real["H"][0], steps, noise)
+        m = max(0, min(len(real["errors"]), j0))
+        if m and not np.allclose(real["errors"][:m], model["errors"][:m], rtol=1e-6, atol=max(noise, 1e-8 * sc)):
+            mism.append("info['errors'] differ")
     return mism
 
 
@@ -344,7 +394,7 @@ def spec_check(case, real):
     V = fromjson(case["V"], cplx)
     n, M, tol = case["n"], case["M"], case["tol"]
     sc = max(1.0, an)
-    noise = 1e4 * EPS * sc
+    noise = NOISE_REL * an
     steps = real["iterations"] - 1
     k = V.shape[0]
     if real["Q"].shape != (k, n, M + 1) or real["H"].shape != (k, M + 1, M):
@@ -384,8 +434,15 @@ def spec_check(case, real):
         if steps == n and jn >= n - 1 and not clip_genuine:
             if np.linalg.norm(Q[:, n]) > max(1e-6, 10 * noise * 2 / tol):
                 fails.append(("dimension-cap", None, f"col {c}: column n of Q has norm {np.linalg.norm(Q[:, n]):.3e}"))
+        # after a breakdown (norm at rounding-noise level) the later columns are zero (to rounding)
+        if jn < steps - 1:
+            g = max(np.abs(Q[:, jn + 2:]).max(initial=0.0), np.abs(H[:, jn + 1:]).max(initial=0.0) / sc)
+            if g > 1e-6:
+                fails.append(("post-breakdown-zero", "breakdownNotMasked",
+                              f"col {c}: breakdown in step {jn} (norm {beta[jn]:.2e}) but {steps - 1 - jn} further steps were taken: "
+                              f"later columns of Q/H reach {g:.3e}"))
         # full-buffer relation A Q[:, :M] = Q H
-        if k == 1 or jn >= steps - 1:
+        if jn >= steps - 1:
             resf = np.linalg.norm(A @ Q[:, :M] - Q @ H)
             thr = 1e-9 * sc + 20 * noise * sc * 2 / tol
             exact_stop = steps == M or (steps > 0 and beta[steps - 1] <= noise)
@@ -412,6 +469,12 @@ def spec_check(case, real):
         lam = np.linalg.eigvals(A)
         full_grade = steps == n and jn >= n - 1
         invariant = steps > 0 and (full_grade or beta[steps - 1] <= noise) and not any(noise < beta[i] < tol / 2 for i in range(steps))
+        if jn < steps - 1:
+            # stepping continued after a noise breakdown: H holds amplified noise, the eigenvalues are garbage
+            invariant = False
+            spurious = [x for x in ev if min(abs(x - lam)) > etol0(sc, noise, tol) and abs(x) > etol0(sc, noise, tol)]
+            if spurious:
+                fails.append(("eigs-garbage", "breakdownNotMasked", f"{len(spurious)} returned eigenvalues are neither eigenvalues of A nor zero, e.g. {spurious[0]:.4g}"))
         etol = 1e-6 * sc + 50 * noise * sc * 2 / tol
         if invariant:
             # no spurious eigenvalues: every returned value is an eigenvalue of A
@@ -428,6 +491,10 @@ def spec_check(case, real):
     return fails
 
 
+def etol0(sc, noise, tol):
+    return 1e-6 * sc + 50 * noise * sc * 2 / tol
+
+
 def model_eigs(model):
     if model.get("eigsH") is None or model["eigsH"].size == 0:
         return np.zeros(0, dtype=complex)
@@ -439,8 +506,11 @@ def compare_eigs(case, real, model):
         return []
     A, an = norms(case)
     sc = max(1.0, an)
-    noise = 1e4 * EPS * sc
+    noise = NOISE_REL * an
     ev_m = model_eigs(model)
+    steps = model["steps"]
+    if first_small(real["H"][0], steps, noise) < steps - 1:
+        return [] if len(ev_m) == len(real["eigvals"]) else ["number of eigenvalues differs"]   # amplified noise: not comparable
     if len(ev_m) != len(real["eigvals"]):
         return [f"arnoldi_eigs returns {len(real['eigvals'])} values, model hands a {len(ev_m)}x{len(ev_m)} matrix to eig"]
     d = match_sets(real["eigvals"], ev_m)
@@ -458,7 +528,7 @@ class Engine:
         self.seen = set()
         self.nontrivial = set()
         self.dist = {"n": {}, "m_vs_n": {"m<n": 0, "m=n": 0, "m>n": 0}, "breakdown": 0, "batch": {}, "complex": 0, "real": 0,
-                     "clauses": {}, "cls": {}, "tol": {}, "outcomes": {"ok": 0, "modelled-defect": 0, "real!=model": 0}}
+                     "clauses": {}, "clause_by_stream": {}, "cls": {}, "tol": {}, "outcomes": {"ok": 0, "modelled-defect": 0, "real!=model": 0}}
         self.samples = []
 
     def account(self, case, real):
@@ -517,6 +587,8 @@ class Engine:
                 status = "violation"
                 break
             self.dist["clauses"][clause] = self.dist["clauses"].get(clause, 0) + 1
+            ks = clause + "@stream" + case.get("stream", "?")
+            self.dist["clause_by_stream"][ks] = self.dist["clause_by_stream"].get(ks, 0) + 1
             if clause in self.known:
                 common.known_finding(ctx, clause, WHAT[clause] + f" [e.g. n={case['n']} max_iters={case['M']} tol={case['tol']}: {name}: {detail}]")
             else:
@@ -597,10 +669,10 @@ def run(ctx):
     cov = eng.coverage()
     cov["rule"] = ("A = X diag(lam) X^-1 with well-conditioned X (classes normal / nonsym / nonnormal / jordanish, real and complex, "
                    "|lam| in [1,3] separated), n = 1..%d, max_iters = 1..n+3, start vectors generic / eigenvector / sum of 2-3 eigenvectors "
-                   "(breakdown), batches of 2-4 start vectors through the vmap shim, tol in {1e-3,1e-5,1e-7,1e-10} plus an edge stream "
+                   "(breakdown), batches of 2-4 start vectors through the vmap shim, tol in {1e-3,1e-5,1e-7,1e-8} plus an edge stream "
                    "(operators of norm 1e-9, tol 0.5/0.9); distinct = canonical JSON of (A, V, max_iters, tol, batched, eigs); "
                    "non-trivial = n >= 2 and >= 1 executed step; comparison real vs Lean model: |dQ| <= 1e-8, |dH| <= 1e-8*max(1,|A|) on the "
-                   "columns before the first noise breakdown (norm <= 1e4*eps*max(1,|A|)), iterations and errors equal; the property's "
+                   "columns before the first noise breakdown (norm <= 1e-10*|A|), iterations and errors equal; the property's "
                    "statements are evaluated on the real outputs with NumPy" % (12 if not ctx.thorough else 40))
     cov["trusted_base_extra"] = ["lean/DriverArnoldi.lean and the Float/CF instances of Arnoldi.Num / Arnoldi.VecOps (IEEE doubles; only the correspondence uses them)",
                                  "xnp.eig (LAPACK geev) is a parameter of the model: eigenvalues are compared on the Python side from the matrix the model hands to eig"]
